@@ -584,8 +584,8 @@ func triage(merged map[string]*group, fs *findings.Set, prop string) {
 		sort.Slice(un, func(i, j int) bool { return un[i].v > un[j].v })
 		var us []string
 		for i, x := range un {
-			if i >= 12 {
-				break
+			if i >= 12 && !strings.HasPrefix(x.k, "conflict-") {
+				continue
 			}
 			us = append(us, fmt.Sprintf("%s:%d", x.k, x.v))
 		}
